@@ -96,6 +96,11 @@ package main
 //@   loop 10: invariant roWanted(slots) && (forall k int :: 0 <= k && k < $i && slots[k].repl != nil && underreplicated ==> slots[k].want)
 //@   loop 11: invariant roWanted(slots) && (forall k int :: 0 <= k && k < len(slots) && slots[k].repl != nil && underreplicated ==> slots[k].want)
 //@   loop 12: invariant roWanted(slots) && (forall k int :: 0 <= k && k < len(slots) && slots[k].repl != nil && underreplicated ==> slots[k].want)
+//@   # every storage class is planned from scratch: when the per-class slot
+//@   # chooser is set up, nothing is counted as wanted or protected yet (the
+//@   # protection that keeps replicas of THIS class from being trashed must not be
+//@   # satisfied by replicas protected for another class)
+//@   at assign trySlot#1: assert replProt == 0 && replWant == 0 && len(protMnt) == 0 && len(wantMnt) == 0 && len(wantDev) == 0 && len(wantSrv) == 0
 //@   calls ChangeSet.AddTrash#1: requires !slot.mnt.ReadOnly && !underreplicated
 //@   ghost u0 bool = false
 //@   at assign desired#1: set u0 = underreplicated
